@@ -535,6 +535,9 @@ def instantiate(ground, qfacts, registry, rounds=2, hints=(), max_insts=6000, us
                     ax, m = sum_pair_axiom(s1, a1, s2, a2)
                     new.append(ax)
                     singles[m.get_id()] = m
+        # theory hooks (e.g. row-major addressing facts of vf/flat.py): per occurrence and per pair of occurrences
+        for hook in getattr(registry, 'hooks', []):
+            new.extend(hook(apps, seen_spec, seen_pairs))
         # spec functions
         for name, sp in registry.specs.items():
             for aid, app in apps.get(name, {}).items():
